@@ -8,12 +8,14 @@ CONSTANTS
     Schedules <- MCSchedulesNeg
     Base = 120
     SpanLens <- MCSpanLensQuick
-    DBRPs = {"db.rp", "db.rp2", "other.rp"}
+    DBRPs <- MCDBRPs
+    DefaultRPs <- MCDefaultRPs
     ChildLists <- MCChildListsNeg
     WrapUser = FALSE
     TruncNext = TRUE
     CloneSharesGB = TRUE
     FluxEndsCollection = FALSE
+    ResolveEmptyRP = FALSE
 INVARIANTS
     TypeOK
     RangeIsExact
